@@ -70,7 +70,13 @@ func vfFirstDiff(a, b []byte) int {
 	return -1
 }
 
-func vfRealClient(n *wire.Net) (net.Conn, error) {
+func vfRealClient(n *wire.Net) (net.Conn, error) { return vfRealClientOn(n.Conn(wire.A)) }
+
+func vfRealServer(n *wire.Net) (net.Conn, error) { return vfRealServerOn(n.Conn(wire.B)) }
+
+// vfRealClientOn / vfRealServerOn build a real endpoint through the public
+// factories on top of the given transport connection.
+func vfRealClientOn(under net.Conn) (net.Conn, error) {
 	cf, err := (&Transport{}).ClientFactory("")
 	if err != nil {
 		return nil, err
@@ -79,19 +85,19 @@ func vfRealClient(n *wire.Net) (net.Conn, error) {
 	if err != nil {
 		return nil, err
 	}
-	c, err := cf.Dial("tcp", "192.0.2.1:443", func(string, string) (net.Conn, error) { return n.Conn(wire.A), nil }, args)
+	c, err := cf.Dial("tcp", "192.0.2.1:443", func(string, string) (net.Conn, error) { return under, nil }, args)
 	if err != nil {
 		return nil, err
 	}
 	return c, nil
 }
 
-func vfRealServer(n *wire.Net) (net.Conn, error) {
+func vfRealServerOn(under net.Conn) (net.Conn, error) {
 	sf, err := (&Transport{}).ServerFactory("", &pt.Args{})
 	if err != nil {
 		return nil, err
 	}
-	c, err := sf.WrapConn(n.Conn(wire.B))
+	c, err := sf.WrapConn(under)
 	if err != nil {
 		return nil, err
 	}
@@ -205,6 +211,13 @@ func vfOpenForced(arr int, rk uint64, parA, parB refobfs3.Params, wireCap [2]int
 // the reference party's private key before that party starts (a party may
 // delay its first flight until it has seen the peer's).
 func vfOpenChoose(arr int, rk uint64, parA, parB refobfs3.Params, wireCap [2]int, force [2][2]int, choose func(realPub []byte, ref *refobfs3.Params), fatal func(string)) *vfSess {
+	return vfOpenWrapped(arr, rk, parA, parB, wireCap, force, choose, nil, fatal)
+}
+
+// vfOpenWrapped: wrap (may be nil) is applied to the transport connection
+// handed to each real side (the blocked-write unit interposes a connection
+// whose writes can be held).
+func vfOpenWrapped(arr int, rk uint64, parA, parB refobfs3.Params, wireCap [2]int, force [2][2]int, choose func(realPub []byte, ref *refobfs3.Params), wrap func(wire.Side, net.Conn) net.Conn, fatal func(string)) *vfSess {
 	s := &vfSess{n: wire.New(), arr: arr, rk: rk}
 	s.fatal = func(msg string) {
 		s.close() // restore the global random source before the test function is left
@@ -222,13 +235,20 @@ func vfOpenChoose(arr int, rk uint64, parA, parB refobfs3.Params, wireCap [2]int
 	for i, k := range wireCap {
 		s.n.SmallReads(wire.Side(i), k)
 	}
+	under := func(sd wire.Side) net.Conn {
+		var c net.Conn = s.n.Conn(sd)
+		if wrap != nil {
+			c = wrap(sd, c)
+		}
+		return c
+	}
 	start := func(e *vfEnd) {
 		n := s.n
 		switch {
 		case e.real && e.side == wire.A:
-			e.ep = drive.Start(n, e.side, func() (net.Conn, error) { return vfRealClient(n) })
+			e.ep = drive.Start(n, e.side, func() (net.Conn, error) { return vfRealClientOn(under(e.side)) })
 		case e.real:
-			e.ep = drive.Start(n, e.side, func() (net.Conn, error) { return vfRealServer(n) })
+			e.ep = drive.Start(n, e.side, func() (net.Conn, error) { return vfRealServerOn(under(e.side)) })
 		default:
 			e.par.Initiator = e.side == wire.A
 			par := e.par
